@@ -42,7 +42,7 @@ func main() {
 	}
 }
 
-var classes = []string{"alias", "mixed", "alias", "unsized", "alias", "mixed", "wide", "alias"}
+var classes = []string{"alias", "mixed", "alias", "unsized", "alias", "mixed", "wide", "alias", "sweep"}
 
 // fixed programs run before the generated ones: the hand-found witnesses
 // (DESIGN.md section 0) and their near misses.
@@ -69,6 +69,15 @@ func main(a, b uint8) (uint8, uint8, uint8) {
 	return x, a+b, b+3
 }
 `},
+}
+
+func safeGen(r *hxlib.Rng, class string, idx int) (p *prog) {
+	defer func() {
+		if e := recover(); e != nil {
+			p = nil
+		}
+	}()
+	return genProgram(r, class, idx)
 }
 
 type outcome struct {
@@ -125,7 +134,11 @@ func runOracle(args []string) int {
 			p = corpus[i]
 			p.Feat = map[string]bool{}
 		} else {
-			p = genProgram(r, classes[(i-len(corpus))%len(classes)])
+			p = safeGen(r, classes[(i-len(corpus))%len(classes)], i-len(corpus))
+			if p == nil {
+				o.Count("generator_panic")
+				continue
+			}
 		}
 		oneProgram(o, cf, i, r, p)
 	}
@@ -136,7 +149,8 @@ func oneProgram(o *hxlib.Out, cf *hxlib.CommonFlags, i int, r *hxlib.Rng, p *pro
 	o.Count("programs")
 	o.Count("class_" + p.Class)
 	base := map[string]any{"case": i, "seed": cf.Seed, "class": p.Class, "src": p.Src, "g_inputs": p.GIn, "e_inputs": p.EIn,
-		"rerun": fmt.Sprintf("c05 oracle -seed %d -n %d -only %d", cf.Seed, cf.N, i)}
+		"rerun":      fmt.Sprintf("c05 oracle -seed %d -n %d -only %d", cf.Seed, cf.N, i),
+		"replay_cmd": "cd /verif/harness && GOFLAGS=-mod=mod GOPROXY=off MPCLDIR=$VERIF_REPO go run -tags verif ./cmd/c05 replay <this replay file>   # runs only this program: streaming pair vs whole circuit"}
 	mk := func(extra map[string]any) map[string]any {
 		m := map[string]any{}
 		for k, v := range base {
@@ -205,9 +219,9 @@ func oneProgram(o *hxlib.Out, cf *hxlib.CommonFlags, i int, r *hxlib.Rng, p *pro
 	g, e := streamOutcomes(res)
 	o.Count("stream_" + g.Status)
 
-	tr := &transcript{Err: "real OT on the stream"}
+	tr := &hxlib.StreamTranscript{Err: "real OT on the stream"}
 	if otName == "ideal" {
-		tr = parseTranscript(d.AB.Rec)
+		tr = hxlib.ParseStreamTranscript(d.AB.Rec, false)
 	}
 	if tr.Err == "" {
 		o.CountN("gates_16bit_ids", tr.Gates16)
